@@ -41,6 +41,8 @@ type Spec[C any] struct {
 	Assumptions []string
 	Gen         func(t *rapid.T) C
 	Run         func(c C) Result
+	// CaseTimeout, when set, is the watchdog for one case (see Execute); only for checks whose cases take milliseconds.
+	CaseTimeout time.Duration
 	// Checks in the quick tier; thorough multiplies by ThoroughFactor (per shard).
 	QuickChecks    int
 	ThoroughFactor int
@@ -254,7 +256,24 @@ func Execute[C any](t *testing.T, spec Spec[C]) {
 		if err != nil {
 			t.Fatalf("case not serialisable: %v", err)
 		}
-		res := safeRun(spec.Run, c)
+		var res Result
+		if spec.CaseTimeout > 0 {
+			// the case runs beside a watchdog: a case of a check whose cases take milliseconds and that has not
+			// returned after CaseTimeout is an engine call that does not terminate. The stuck goroutine cannot be
+			// stopped, so the verdict is written and the process ends here.
+			done := make(chan Result, 1)
+			go func() { done <- safeRun(spec.Run, c) }()
+			select {
+			case res = <-done:
+			case <-time.After(spec.CaseTimeout):
+				path := saveFailure(spec.ID, fmt.Sprintf("stuck-%016x", hash64(raw)), raw)
+				fmt.Printf("property %s violated:\nthe case did not finish within %v (cases of this check take milliseconds): an engine call does not return\ncase: %s\n", spec.ID, spec.CaseTimeout, clip(raw))
+				fmt.Printf("VIOLATION property=%s replay=%s\n", spec.ID, path)
+				os.Exit(1)
+			}
+		} else {
+			res = safeRun(spec.Run, c)
+		}
 		col.record(raw, res)
 		return res, raw
 	}
